@@ -61,7 +61,7 @@ def gen_schedules(prog, consts, num, seed, stats):
     return out
 
 
-def gen_cover_schedules(prog, consts, cover, stats, cap, timeout=400):
+def gen_cover_schedules(prog, consts, cover, stats, cap, timeout=400, solo_cap=600):
     """Coverage-directed export (spec/WalConc.tla CoverSpec/CoverPairs): one shortest schedule prefix per reachable
     co-location of two goroutines at a pair of labels, found by TLC breadth-first search."""
     c = dict(consts, Record=True, CoverProcs=set(cover))
@@ -83,10 +83,24 @@ def gen_cover_schedules(prog, consts, cover, stats, cap, timeout=400):
         body = k[:-1]
         if not any(o.startswith(body + ",") for o in keep):
             keep.append(k)
-    out = [json.loads(k) for k in keep]
+    out = [(json.loads(k), "") for k in keep]
     random.Random(len(out)).shuffle(out)
+    out = out[:cap]
+    # every witness (also those that are a prefix of a longer one) continued "one of the co-located goroutines first"
+    # (harness/cmd/concdrive Scenario.Solo): the prefix is played, then that goroutine alone runs until it finishes or blocks
+    solo = []
+    for p in ps:
+        if p["sched"]:
+            for w in sorted(p.get("who") or []):
+                solo.append((p["sched"], PROC_NAMES.get(w, "r%d" % w)))
+    random.Random(len(solo)).shuffle(solo)
+    solo = solo[:solo_cap]
     stats["cover_schedules"] = stats.get("cover_schedules", 0) + len(out)
-    return out[:cap]
+    stats["cover_solo"] = stats.get("cover_solo", 0) + len(solo)
+    return out + solo
+
+
+PROC_NAMES = {10: "w", 20: "rot", 30: "closer", 40: "stable"}
 
 
 def ordered_pairs(sched):
@@ -216,15 +230,15 @@ def check_conc(pid, tier, seed):
         if ti == 0:
             cover = [30] if closer else [1]
         cs = gen_cover_schedules(prog, cconsts, (cover if ti == 0 else []), stats, (120, 1500)[ti], timeout=(240, 1500)[ti])
-        pick = pick + [s for s in cs if s not in pick]
-        for s in cs:
+        pick = [(s, "") for s in pick] + [(s, solo) for s, solo in cs if solo or s not in pick]
+        for s, _ in cs:
             cov |= ordered_pairs(s)
         allpairs |= {(pi,) + p for p in cov}
-        for k, sc in enumerate(pick):
+        for k, (sc, solo) in enumerate(pick):
             scen.append({"id": "%s-p%d-s%d" % (pid, pi, k), "mode": "forced", "world": "sim", "prog": prog,
                          "nreaders": consts["NReaders"], "readsEach": consts["ReadsEach"], "withCloser": closer,
                          "withStable": consts["WithStable"], "segSize": 60 if consts["SealAt"] == 1 else 80,
-                         "sched": sc, "seed": seed})
+                         "sched": sc, "seed": seed, "solo": solo})
         nsched += len(pick)
     log("%s: %d forced schedules covering %d ordered racing pairs" % (pid, nsched, len(allpairs)))
     trace, _, _ = run_conc(scen, wd, "forced")
@@ -295,9 +309,11 @@ def c13_stage(seed, tier, stats):
     scen = []
     for pi, prog in enumerate(([["store", "store", "delh"]], [["store", "store", "delh"], ["store", "delt", "store", "delh"]])[ti]):
         cs = gen_cover_schedules(prog, b, [1], stats, (120, 600)[ti], timeout=(200, 900)[ti])
-        for k, sc in enumerate(cs):
-            scen.append({"id": "C13c-p%d-s%d" % (pi, k), "mode": "forced", "world": "sim", "prog": prog, "nreaders": 1, "readsEach": 1,
-                         "withCloser": False, "withStable": False, "segSize": 60, "sched": sc, "seed": seed})
+        for k, (sc, solo) in enumerate(cs):
+            if True:
+                scen.append({"id": "C13c-p%d-s%d" % (pi, k), "mode": "forced", "world": "sim", "prog": prog,
+                             "nreaders": 1, "readsEach": 1, "withCloser": False, "withStable": False, "segSize": 60, "sched": sc,
+                             "seed": seed, "solo": solo})
     for k in range((6, 40)[ti]):
         n = rng.randint(10, 30)
         prog = [rng.choice(["store", "store", "delh", "delt"]) for _ in range(n)]
